@@ -471,9 +471,27 @@ impl<'k> Lowerer<'k> {
             for p in &w.predicates {
                 match p {
                     syn::WherePredicate::Type(pt) => {
-                        let bi = binder_names(&pt.lifetimes);
-                        let bs: Vec<Bound> = pt.bounds.iter().map(|b| self.lower_bound(b, sc)).collect();
+                        let mut bi = binder_names(&pt.lifetimes);
+                        let mut bs: Vec<Bound> = pt.bounds.iter().map(|b| self.lower_bound(b, sc)).collect();
                         let mut merged = false;
+                        // `where for<'a> F: Tr<'a>` is `where F: for<'a> Tr<'a>` when the left-hand side is a
+                        // plain type parameter (which cannot mention `'a`): move the predicate's binder onto
+                        // each trait bound. (An outlives bound under a binder is left as a where-predicate.)
+                        let lhs_is_param = matches!(&pt.bounded_ty, syn::Type::Path(tp) if tp.qself.is_none()
+                            && tp.path.get_ident().map(|id| out.tps.iter().any(|x| x.name == id.to_string())).unwrap_or(false));
+                        if !bi.is_empty() && lhs_is_param && bs.iter().all(|b| matches!(b, Bound::Trait(..) | Bound::Fn(..))) {
+                            for b in bs.iter_mut() {
+                                match b {
+                                    Bound::Trait(inner, ..) | Bound::Fn(inner, ..) => {
+                                        let mut all = bi.clone();
+                                        all.extend(inner.drain(..));
+                                        *inner = all;
+                                    }
+                                    _ => {}
+                                }
+                            }
+                            bi.clear();
+                        }
                         if bi.is_empty() {
                             if let syn::Type::Path(tp) = &pt.bounded_ty {
                                 if tp.qself.is_none() {
@@ -1045,5 +1063,89 @@ pub fn collect_traits(k: &mut Krate, file: &str, items: &[syn::Item], with_super
             }
             _ => {}
         }
+    }
+}
+
+// ------------------------------------------------------------------------------------------------
+// Inlining of private helpers into the body facts of their callers
+// ------------------------------------------------------------------------------------------------
+/// `calls` / `field_calls` of a function are what its body does; a body that delegates to a private
+/// (non-`pub`, or `pub(crate)` / `pub(super)`) helper of the crate does what the helper does. The facts of a
+/// helper are merged into its callers (transitively) when the call resolves UNAMBIGUOUSLY: the crate
+/// defines exactly one function of that name, it is not public and not a trait method, and the call's
+/// qualifier fits it (method call -> has a receiver; `Self::f` / `Type::f` -> that owner; `f(..)` /
+/// `module::f(..)` -> a free function). Anything else is left alone (the caller's own facts only).
+pub fn inline_private_helpers(k: &mut Krate) {
+    let n = k.fns.len();
+    let mut by_name: BTreeMap<String, Vec<usize>> = BTreeMap::new();
+    for (i, f) in k.fns.iter().enumerate() {
+        by_name.entry(f.name.clone()).or_default().push(i);
+    }
+    let struct_names: Vec<String> = k
+        .decls
+        .iter()
+        .filter_map(|(_, _, d)| match d {
+            Decl::Struct { name, .. } | Decl::Enum { name, .. } => Some(name.clone()),
+            _ => None,
+        })
+        .collect();
+    let mut helpers: Vec<Vec<usize>> = vec![vec![]; n];
+    for i in 0..n {
+        for (q, name) in &k.fns[i].qcalls {
+            let Some(c) = by_name.get(name) else { continue };
+            if c.len() != 1 || c[0] == i {
+                continue;
+            }
+            let h = &k.fns[c[0]];
+            let nonpub = h.vis == "priv" || h.vis == "pub(crate)";
+            if !nonpub || h.kind == "trait" {
+                continue;
+            }
+            let q2 = if q == "Self" { k.fns[i].owner.clone() } else { q.clone() };
+            let fits = if q == "." {
+                h.recv != Recv::None
+            } else if q.is_empty() {
+                h.kind == "free"
+            } else if struct_names.contains(&q2) {
+                h.owner == q2
+            } else if q2.chars().next().map(|c| c.is_lowercase()).unwrap_or(false) {
+                h.kind == "free"
+            } else {
+                false
+            };
+            if fits && !helpers[i].contains(&c[0]) {
+                helpers[i].push(c[0]);
+            }
+        }
+    }
+    for _ in 0..16 {
+        let mut changed = false;
+        for i in 0..n {
+            for &j in &helpers[i].clone() {
+                let (hc, hf) = (k.fns[j].calls.clone(), k.fns[j].field_calls.clone());
+                let f = &mut k.fns[i];
+                for c in hc {
+                    if !f.calls.contains(&c) {
+                        f.calls.push(c);
+                        changed = true;
+                    }
+                }
+                for c in hf {
+                    if !f.field_calls.contains(&c) {
+                        f.field_calls.push(c);
+                        changed = true;
+                    }
+                }
+            }
+        }
+        if !changed {
+            break;
+        }
+    }
+    for f in k.fns.iter_mut() {
+        f.calls.sort();
+        f.calls.dedup();
+        f.field_calls.sort();
+        f.field_calls.dedup();
     }
 }
